@@ -66,9 +66,13 @@ class Env:
 
         # Replace all the symbols in expr with def_name+symbol
         def arg_rename(a):
-            a.name = f"{deff[0]}_{a.name}"
-            a.bitvec = list(map(lambda b: f"{deff[0]}_{b}", a.bitvec))
-            return a
+            # a new Arg: the definition can be bound again (every bind of an unbound qlassf
+            # translates with the same definitions)
+            return Arg(
+                f"{deff[0]}_{a.name}",
+                a.ttype,
+                list(map(lambda b: f"{deff[0]}_{b}", a.bitvec)),
+            )
 
         def exp_rename(se):
             s, e = se
